@@ -1,1 +1,739 @@
-/-! C14 — property theorems (none yet). -/
+import Req.Client.Compress
+import Req.Client.CompressLegacy
+import Req.Client.CompressToy
+import Req.Client.CompressShape
+import Req.Lemmas.C14Readers
+/-!
+C14 — property theorems, part 1: the decision (who asks for gzip, when a response is decoded,
+what is rewritten, that the three protocol stacks are one function, that a body reader always
+exists); part 2: the readers (read-size independence, version independence, sticky errors,
+original payload under the codec's round-trip law), over abstract codecs with the streaming
+law, instantiated with the toy codec of `Req/Client/CompressToy.lean`.
+
+All statements are for every request configuration, every header list and every
+`Content-Encoding` byte string.
+-/
+namespace Req.Props.C14
+open Req.Proto Req.Compress
+
+/-! ### `select`: the supported tokens, exactly -/
+
+/-- `NewCompressReader` builds a reader for exactly the four lower-case tokens. -/
+theorem select_some_iff (ce : Bytes) (a : Alg) :
+    select ce = some a ↔
+      (ce = tokGzip ∧ a = .gzip) ∨ (ce = tokDeflate ∧ a = .deflate) ∨
+      (ce = tokBr ∧ a = .br) ∨ (ce = tokZstd ∧ a = .zstd) := by
+  unfold select arms
+  simp only [List.lookup]
+  constructor
+  · intro h
+    split at h
+    · rename_i h1; simp at h1; simp_all
+    · split at h
+      · rename_i h1; simp at h1; simp_all
+      · split at h
+        · rename_i h1; simp at h1; simp_all
+        · split at h
+          · rename_i h1; simp at h1; simp_all
+          · simp at h
+  · rintro (⟨rfl, rfl⟩ | ⟨rfl, rfl⟩ | ⟨rfl, rfl⟩ | ⟨rfl, rfl⟩) <;> decide
+
+theorem select_none_iff (ce : Bytes) :
+    select ce = none ↔ ce ≠ tokGzip ∧ ce ≠ tokDeflate ∧ ce ≠ tokBr ∧ ce ≠ tokZstd := by
+  constructor
+  · intro h
+    refine ⟨?_, ?_, ?_, ?_⟩ <;> (rintro rfl; revert h; decide)
+  · rintro ⟨h1, h2, h3, h4⟩
+    cases hs : select ce with
+    | none => rfl
+    | some a =>
+      rcases (select_some_iff ce a).mp hs with ⟨h, _⟩ | ⟨h, _⟩ | ⟨h, _⟩ | ⟨h, _⟩ <;> contradiction
+
+-- "GZIP", "Gzip", "gzip, br", "identity", "x-gzip", "" and " gzip" select nothing
+example : select [71, 90, 73, 80] = none := by decide
+example : select [71, 122, 105, 112] = none := by decide
+example : select [103, 122, 105, 112, 44, 32, 98, 114] = none := by decide
+example : select [105, 100, 101, 110, 116, 105, 116, 121] = none := by decide
+example : select [120, 45, 103, 122, 105, 112] = none := by decide
+example : select [] = none := by decide
+example : select [32, 103, 122, 105, 112] = none := by decide
+-- while the EqualFold test of the first branch accepts "GZIP" and rejects the list
+example : isGzipFold [71, 90, 73, 80] = true := by decide
+example : isGzipFold [103, 122, 105, 112, 44, 32, 98, 114] = false := by decide
+
+/-! ### request side -/
+
+/-- **asks_gzip_iff** — the transport adds `Accept-Encoding: gzip` exactly when compression is
+not disabled, the caller set neither `Accept-Encoding` nor `Range`, and the method is not
+HEAD; on all three stacks. -/
+theorem asks_gzip_iff (s : Site) (c : ReqCfg) :
+    addGzip s c = true ↔
+      c.disableCompression = false ∧ c.acceptEncoding = [] ∧ c.range = [] ∧ c.isHead = false := by
+  cases s <;>
+    simp [addGzip, addGzipH1, addGzipH2, addGzipH3, ReqCfg.isHead, and_assoc, and_left_comm, and_comm]
+
+theorem addGzip_sites_agree (c : ReqCfg) :
+    addGzipH1 c = addGzipH2 c ∧ addGzipH2 c = addGzipH3 c := by
+  have h1 := asks_gzip_iff .h1 c
+  have h2 := asks_gzip_iff .h2 c
+  have h3 := asks_gzip_iff .h3 c
+  simp only [addGzip] at h1 h2 h3
+  constructor
+  · exact Bool.eq_iff_iff.mpr (h1.trans h2.symm)
+  · exact Bool.eq_iff_iff.mpr (h2.trans h3.symm)
+
+theorem head_never_asks (s : Site) (c : ReqCfg) (h : c.isHead = true) : addGzip s c = false := by
+  cases hg : addGzip s c with
+  | false => rfl
+  | true => have := ((asks_gzip_iff s c).mp hg).2.2.2; simp_all
+
+/-- The origin sees `gzip` iff the transport added it; otherwise exactly the caller's value. -/
+theorem wire_accept_encoding (s : Site) (c : ReqCfg) :
+    wireAcceptEncoding (addGzip s c) c =
+      if addGzip s c then some tokGzip
+      else if c.acceptEncoding = [] then none else some c.acceptEncoding := by
+  unfold wireAcceptEncoding
+  split <;> simp
+
+example : addGzip .h3 ⟨false, [71, 69, 84], [], []⟩ = true := by decide
+example : addGzip .h1 ⟨false, [71, 69, 84], [98, 114], []⟩ = false := by decide
+example : addGzip .h2 ⟨false, tokHEAD, [], []⟩ = false := by decide
+example : addGzip .h1 ⟨false, [71, 69, 84], [], [98, 121, 116, 101, 115, 61, 48, 45, 49]⟩ = false := by decide
+
+/-! ### response side -/
+
+/-- Does the stack reach its decoding branch at all? H1/H2 leave early for HEAD and for
+responses without a body reader; H3 has no such exit. -/
+def reaches (s : Site) (i : RespIn) : Bool :=
+  match s with
+  | .h3 => true
+  | _ => !i.isHead && i.hasBody
+
+/-- **decoded_when** — the gzip branch is taken iff the transport itself asked for gzip and
+the response says gzip (ASCII case-insensitively). -/
+theorem decoded_when (s : Site) (i : RespIn) (hhead : i.isHead = true → i.addedGzip = false) :
+    decideAt s i = .gunzip ↔ reaches s i = true ∧ i.addedGzip = true ∧ isGzipFold i.ce = true := by
+  cases s <;> simp only [decideAt, decideH1, decideH2, decideH3, decideCore, reaches]
+  · cases h1 : i.isHead <;> cases h2 : i.hasBody <;> cases h3 : i.addedGzip <;>
+      cases h4 : isGzipFold i.ce <;> cases h5 : i.autoDecompress <;> simp <;>
+      (split <;> simp)
+  · cases h1 : i.isHead <;> cases h2 : i.hasBody <;> cases h3 : i.addedGzip <;>
+      cases h4 : isGzipFold i.ce <;> cases h5 : i.autoDecompress <;> simp <;>
+      (split <;> simp)
+  · cases h1 : i.isHead <;> cases h3 : i.addedGzip <;>
+      cases h4 : isGzipFold i.ce <;> cases h5 : i.autoDecompress <;> simp_all <;>
+      (split <;> simp)
+
+/-- **decompress_when** — the auto-decompress branch installs the reader of algorithm `a` iff
+the gzip branch did not apply, AutoDecompression is on, the request is not HEAD, and
+`Content-Encoding` is exactly the token of `a`. -/
+theorem decompress_when (s : Site) (i : RespIn) (a : Alg) :
+    decideAt s i = .decompress a ↔
+      reaches s i = true ∧ i.isHead = false ∧ ¬(i.addedGzip = true ∧ isGzipFold i.ce = true) ∧
+      i.autoDecompress = true ∧ select i.ce = some a := by
+  cases s <;> simp only [decideAt, decideH1, decideH2, decideH3, decideCore, reaches]
+  · cases h1 : i.isHead <;> cases h2 : i.hasBody <;> cases h3 : i.addedGzip <;>
+      cases h4 : isGzipFold i.ce <;> cases h5 : i.autoDecompress <;> simp <;>
+      (split <;> simp_all)
+  · cases h1 : i.isHead <;> cases h2 : i.hasBody <;> cases h3 : i.addedGzip <;>
+      cases h4 : isGzipFold i.ce <;> cases h5 : i.autoDecompress <;> simp <;>
+      (split <;> simp_all)
+  · cases h1 : i.isHead <;> cases h3 : i.addedGzip <;>
+      cases h4 : isGzipFold i.ce <;> cases h5 : i.autoDecompress <;> simp <;>
+      (split <;> simp_all)
+
+/-- The three outcomes are exhaustive: not gunzip and no reader ⇒ untouched. -/
+theorem action_untouched_iff (s : Site) (i : RespIn) :
+    decideAt s i = .untouched ↔ decideAt s i ≠ .gunzip ∧ ∀ a, decideAt s i ≠ .decompress a := by
+  cases h : decideAt s i <;> simp
+
+/-- **untouched_otherwise** — whenever neither decoding condition holds, the caller gets the
+body as received and the very same response (header list, ContentLength, Uncompressed). -/
+theorem untouched_otherwise (s : Site) (c : ReqCfg) (auto hasBody : Bool) (r : Resp)
+    (hg : ¬(reaches s (respIn s c auto hasBody r) = true ∧ addGzip s c = true ∧
+            isGzipFold (hget r.header hContentEncoding) = true))
+    (hd : ¬(reaches s (respIn s c auto hasBody r) = true ∧ c.isHead = false ∧ auto = true ∧
+            (select (hget r.header hContentEncoding)).isSome = true)) :
+    process s c auto hasBody r = ⟨r, some .raw⟩ := by
+  have hhead : (respIn s c auto hasBody r).isHead = true →
+      (respIn s c auto hasBody r).addedGzip = false := fun h => head_never_asks s c h
+  have h1 : decideAt s (respIn s c auto hasBody r) ≠ .gunzip := by
+    intro h
+    exact hg ((decoded_when s _ hhead).mp h)
+  have h2 : ∀ a, decideAt s (respIn s c auto hasBody r) ≠ .decompress a := by
+    intro a h
+    have := (decompress_when s _ a).mp h
+    apply hd
+    refine ⟨this.1, this.2.1, this.2.2.2.1, ?_⟩
+    have hs := this.2.2.2.2
+    simp only [respIn] at hs
+    simp [hs]
+  have h3 := (action_untouched_iff s _).mpr ⟨h1, h2⟩
+  simp [process, h3, applyAction]
+
+/-- the caller set `Accept-Encoding` itself and did not enable AutoDecompression -/
+theorem untouched_caller_accept_encoding (s : Site) (c : ReqCfg) (hasBody : Bool) (r : Resp)
+    (h : c.acceptEncoding ≠ []) : process s c false hasBody r = ⟨r, some .raw⟩ := by
+  apply untouched_otherwise
+  · intro hh; have := (asks_gzip_iff s c).mp hh.2.1; exact h this.2.1
+  · intro hh; simp at hh
+
+/-- Range request without AutoDecompression -/
+theorem untouched_range (s : Site) (c : ReqCfg) (hasBody : Bool) (r : Resp)
+    (h : c.range ≠ []) : process s c false hasBody r = ⟨r, some .raw⟩ := by
+  apply untouched_otherwise
+  · intro hh; have := (asks_gzip_iff s c).mp hh.2.1; exact h this.2.2.1
+  · intro hh; simp at hh
+
+/-- DisableCompression without AutoDecompression -/
+theorem untouched_disable_compression (s : Site) (c : ReqCfg) (hasBody : Bool) (r : Resp)
+    (h : c.disableCompression = true) : process s c false hasBody r = ⟨r, some .raw⟩ := by
+  apply untouched_otherwise
+  · intro hh; have := (asks_gzip_iff s c).mp hh.2.1; simp_all
+  · intro hh; simp at hh
+
+/-- HEAD, whatever the configuration and whatever the response claims -/
+theorem untouched_head (s : Site) (c : ReqCfg) (auto hasBody : Bool) (r : Resp)
+    (h : c.isHead = true) : process s c auto hasBody r = ⟨r, some .raw⟩ := by
+  apply untouched_otherwise
+  · intro hh; have := head_never_asks s c h; simp_all
+  · intro hh; simp_all
+
+/-- absent, unsupported, mixed-case or list encodings: any `Content-Encoding` value that is
+neither one of the four tokens nor a case variant of `gzip` -/
+theorem untouched_unsupported (s : Site) (c : ReqCfg) (auto hasBody : Bool) (r : Resp)
+    (h1 : select (hget r.header hContentEncoding) = none)
+    (h2 : isGzipFold (hget r.header hContentEncoding) = false) :
+    process s c auto hasBody r = ⟨r, some .raw⟩ := by
+  apply untouched_otherwise
+  · intro hh; simp_all
+  · intro hh; simp_all
+
+/-- mixed-case `GZIP` under AutoDecompression when the transport did NOT ask for gzip -/
+theorem untouched_mixed_case_auto (s : Site) (c : ReqCfg) (hasBody : Bool) (r : Resp)
+    (h1 : select (hget r.header hContentEncoding) = none) (h2 : addGzip s c = false) :
+    process s c true hasBody r = ⟨r, some .raw⟩ := by
+  apply untouched_otherwise
+  · intro hh; simp_all
+  · intro hh; simp_all
+
+-- non-vacuity: header [X-A: 1, Content-Encoding: GZIP, Content-Length: 5], GET, AutoDecompress,
+-- caller Accept-Encoding "br"
+example :
+    let r : Resp := ⟨[([88, 45, 65], [49]), (hContentEncoding, [71, 90, 73, 80]), (hContentLength, [53])], 5, false⟩
+    process .h2 ⟨false, [71, 69, 84], [98, 114], []⟩ true true r = ⟨r, some .raw⟩ := by decide
+
+/-! ### the rewrite -/
+
+theorem hget_hdel_self (h : Header) (k : Bytes) : hget (hdel h k) k = [] := by
+  unfold hget hdel
+  have : (List.filter (fun p => p.1 != k) h).find? (fun p => p.1 == k) = none := by
+    rw [List.find?_eq_none]
+    intro x hx
+    have := (List.mem_filter.mp hx).2
+    simp_all
+  rw [this]
+
+theorem hvalues_hdel_self (h : Header) (k : Bytes) : hvalues (hdel h k) k = [] := by
+  unfold hvalues hdel
+  rw [List.filter_filter]
+  have : (List.filter (fun a => (a.1 == k && a.1 != k)) h) = [] := by
+    rw [List.filter_eq_nil_iff]; intro a _; cases h : a.1 == k <;> simp_all
+  simp [this]
+
+theorem hdel_comm (h : Header) (k k' : Bytes) : hdel (hdel h k) k' = hdel (hdel h k') k := by
+  unfold hdel; simp only [List.filter_filter]; congr 1; funext a; exact Bool.and_comm _ _
+
+theorem hvalues_hdel_other (h : Header) (k k' : Bytes) (hne : k' ≠ k) :
+    hvalues (hdel h k) k' = hvalues h k' := by
+  unfold hvalues hdel
+  rw [List.filter_filter]
+  congr 1
+  apply List.filter_congr
+  intro a _
+  cases h1 : a.1 == k' <;> simp_all
+
+/-- **rewrite_when_decoded** — whenever the body is decoded the response no longer claims an
+encoding or a length (no `Content-Encoding`/`Content-Length` value is left, however many
+there were), `ContentLength = -1`, `Uncompressed = true`; every other field keeps its values
+in order. -/
+theorem rewrite_when_decoded (s : Site) (c : ReqCfg) (auto hasBody : Bool) (r : Resp)
+    (h : (process s c auto hasBody r).body ≠ some .raw) :
+    let o := process s c auto hasBody r
+    hvalues o.resp.header hContentEncoding = [] ∧ hvalues o.resp.header hContentLength = [] ∧
+    o.resp.contentLength = -1 ∧ o.resp.uncompressed = true ∧
+    (∀ k, k ≠ hContentEncoding → k ≠ hContentLength → hvalues o.resp.header k = hvalues r.header k) ∧
+    o.resp.header = r.header.filter (fun p => p.1 != hContentEncoding && p.1 != hContentLength) := by
+  have key : (process s c auto hasBody r).resp = strip r := by
+    unfold process at h ⊢
+    cases hd : decideAt s (respIn s c auto hasBody r) <;> simp_all [applyAction]
+  simp only [key, strip]
+  refine ⟨?_, hvalues_hdel_self _ _, trivial, trivial, ?_, ?_⟩
+  · rw [hdel_comm]; exact hvalues_hdel_self _ _
+  · intro k h1 h2
+    rw [hvalues_hdel_other _ _ _ h2, hvalues_hdel_other _ _ _ h1]
+  · unfold hdel; rw [List.filter_filter]; congr 1; funext a; exact Bool.and_comm _ _
+
+-- two Content-Encoding lines and a Content-Length: all gone, X-A stays
+example :
+    (process .h1 ⟨false, [71, 69, 84], [], []⟩ false true
+      ⟨[([88, 45, 65], [49]), (hContentEncoding, tokGzip), (hContentLength, [53]),
+        (hContentEncoding, tokBr)], 5, false⟩)
+    = ⟨⟨[([88, 45, 65], [49])], -1, true⟩, some .gunzip⟩ := by decide
+
+/-! ### the three stacks are one function; a body always exists -/
+
+/-- **sites_agree** — for a response that carries a body the three stacks compute the same
+result (same reader kind, same rewritten response) from the same request configuration;
+HTTP/1.1 and HTTP/2 agree on bodiless responses too. -/
+theorem decideH1_eq_decideH2 (i : RespIn) : decideH1 i = decideH2 i := by
+  unfold decideH1 decideH2
+  cases h1 : i.isHead <;> cases h2 : i.hasBody <;> simp
+
+theorem decideH2_eq_decideH3 (i : RespIn) (hb : i.hasBody = true)
+    (hh : i.isHead = true → i.addedGzip = false) : decideH2 i = decideH3 i := by
+  unfold decideH2 decideH3 decideCore
+  cases h1 : i.isHead
+  · simp [hb]
+  · simp [hh h1]
+
+theorem sites_agree (c : ReqCfg) (auto : Bool) (r : Resp) :
+    process .h1 c auto true r = process .h2 c auto true r ∧
+    process .h2 c auto true r = process .h3 c auto true r ∧
+    (∀ hasBody, process .h1 c auto hasBody r = process .h2 c auto hasBody r) := by
+  have hg := addGzip_sites_agree c
+  have hh : c.isHead = true → addGzipH3 c = false := head_never_asks .h3 c
+  refine ⟨?_, ?_, ?_⟩
+  · simp only [process, respIn, decideAt, addGzip, hg.1, decideH1_eq_decideH2]
+  · simp only [process, respIn, decideAt, addGzip, hg.2]
+    rw [decideH2_eq_decideH3 _ rfl hh]
+  · intro hasBody
+    simp only [process, respIn, decideAt, addGzip, hg.1, decideH1_eq_decideH2]
+
+/-- On a HEAD exchange every stack leaves the response alone (H3 included, where the branch is
+reached). -/
+theorem sites_agree_head (c : ReqCfg) (auto hasBody : Bool) (r : Resp) (h : c.isHead = true) :
+    process .h1 c auto hasBody r = process .h3 c auto hasBody r ∧
+    process .h2 c auto hasBody r = process .h3 c auto hasBody r := by
+  simp [untouched_head _ c auto hasBody r h]
+
+/-- **body_is_usable** — whatever the inputs, `Response.Body` is a reader (never a nil
+interface). Feeds C07. -/
+theorem body_is_usable (s : Site) (c : ReqCfg) (auto hasBody : Bool) (r : Resp) :
+    (process s c auto hasBody r).body ≠ none := by
+  unfold process
+  cases decideAt s (respIn s c auto hasBody r) <;> simp [applyAction]
+
+/-! ### the same statements are FALSE of the code before fixes/C14-1..3
+
+Witnesses, each replayed on the implementation by the e2e lanes (classes `nil-reader`,
+`h3-auto-nil-body`, `h3-head-auto`, `h3-gzip-case`). -/
+
+/-- GET, AutoDecompression, caller `Accept-Encoding: br`, response `Content-Encoding: identity`,
+`Content-Length: 5`. -/
+def witnessCfg : ReqCfg := ⟨false, [71, 69, 84], [98, 114], []⟩
+def witnessResp (ce : Bytes) : Resp := ⟨[(hContentEncoding, ce), (hContentLength, [53])], 5, false⟩
+def ceIdentity : Bytes := [105, 100, 101, 110, 116, 105, 116, 121]
+def ceGZIP : Bytes := [71, 90, 73, 80]
+
+/-- defect 9: unsupported encoding + AutoDecompression → headers stripped (not untouched) … -/
+theorem legacy_untouched_fails :
+    Legacy.process .h1 witnessCfg true true (witnessResp ceIdentity) ≠
+      ⟨witnessResp ceIdentity, some .raw⟩ ∧
+    Legacy.process .h2 witnessCfg true true (witnessResp ceGZIP) ≠
+      ⟨witnessResp ceGZIP, some .raw⟩ := by decide
+
+/-- … and no body reader at all (nil interface). Defect 10: on HTTP/3 that is so for EVERY
+response under AutoDecompression, supported encoding or none. -/
+theorem legacy_body_unusable :
+    (Legacy.process .h1 witnessCfg true true (witnessResp ceIdentity)).body = none ∧
+    (Legacy.process .h2 witnessCfg true true (witnessResp ceGZIP)).body = none ∧
+    (Legacy.process .h3 witnessCfg true true (witnessResp tokGzip)).body = none ∧
+    (Legacy.process .h3 witnessCfg true true ⟨[], -1, false⟩).body = none := by decide
+
+/-- the stacks disagree: supported encoding under AutoDecompression (H3 nil body), `GZIP`
+answered to a transport-added `Accept-Encoding: gzip` (H3 compares exactly), HEAD under
+AutoDecompression (H3 strips the header). -/
+theorem legacy_sites_disagree :
+    Legacy.process .h2 witnessCfg true true (witnessResp tokGzip) ≠
+      Legacy.process .h3 witnessCfg true true (witnessResp tokGzip) ∧
+    Legacy.process .h1 ⟨false, [71, 69, 84], [], []⟩ false true (witnessResp ceGZIP) ≠
+      Legacy.process .h3 ⟨false, [71, 69, 84], [], []⟩ false true (witnessResp ceGZIP) ∧
+    Legacy.process .h1 ⟨false, tokHEAD, [], []⟩ true true (witnessResp tokGzip) ≠
+      Legacy.process .h3 ⟨false, tokHEAD, [], []⟩ true true (witnessResp tokGzip) := by decide
+
+/-- Where the legacy model and the repaired model differ — exactly the four finding classes;
+everywhere else the fixes change nothing. -/
+theorem legacy_differs_only (s : Site) (c : ReqCfg) (auto hasBody : Bool) (r : Resp)
+    (hne : Legacy.process s c auto hasBody r ≠ process s c auto hasBody r) :
+    (auto = true ∧ hget r.header hContentEncoding ≠ [] ∧
+        select (hget r.header hContentEncoding) = none) ∨
+    (s = .h3 ∧ auto = true) ∨
+    (s = .h3 ∧ addGzip s c = true ∧ isGzipFold (hget r.header hContentEncoding) = true ∧
+        hget r.header hContentEncoding ≠ tokGzip) := by
+  have core : ∀ i : RespIn, Legacy.applyAction (Legacy.decideCore i) r ≠ applyAction (decideCore i) r →
+      i.autoDecompress = true ∧ i.ce ≠ [] ∧ select i.ce = none := by
+    intro i
+    unfold Legacy.decideCore decideCore
+    cases h1 : (i.addedGzip && isGzipFold i.ce)
+    · cases h2 : i.autoDecompress
+      · simp [Legacy.applyAction, applyAction]
+      · cases h3 : select i.ce
+        · by_cases h4 : i.ce = []
+          · simp [h4, Legacy.applyAction, applyAction]
+          · simp [h4]
+        · by_cases h4 : i.ce = []
+          · rw [h4] at h3
+            have : select [] = none := by decide
+            rw [this] at h3; cases h3
+          · simp [h4, Legacy.applyAction, applyAction]
+    · simp [Legacy.applyAction, applyAction]
+  revert hne
+  cases s
+  · simp only [Legacy.process, process, Legacy.decideAt, decideAt, Legacy.decideH1, decideH1]
+    intro hne
+    cases h : ((respIn .h1 c auto hasBody r).isHead || !(respIn .h1 c auto hasBody r).hasBody)
+    · rw [h] at hne; simp only [Bool.false_eq_true, if_false] at hne
+      exact Or.inl (core _ hne)
+    · rw [h] at hne; simp [Legacy.applyAction, applyAction] at hne
+  · simp only [Legacy.process, process, Legacy.decideAt, decideAt, Legacy.decideH2, decideH2]
+    intro hne
+    cases h : (respIn .h2 c auto hasBody r).isHead
+    · rw [h] at hne; simp only [Bool.false_eq_true, if_false] at hne
+      cases h' : (!(respIn .h2 c auto hasBody r).hasBody)
+      · rw [h'] at hne; simp only [Bool.false_eq_true, if_false] at hne
+        exact Or.inl (core _ hne)
+      · rw [h'] at hne; simp [Legacy.applyAction, applyAction] at hne
+    · rw [h] at hne; simp [Legacy.applyAction, applyAction] at hne
+  · intro hne
+    cases hauto : auto
+    · right; right
+      refine ⟨rfl, ?_⟩
+      subst hauto
+      simp only [Legacy.process, process, Legacy.decideAt, decideAt, Legacy.decideH3, decideH3,
+        respIn] at hne
+      cases hg : addGzip .h3 c
+      · simp [hg, Legacy.applyAction, applyAction] at hne
+      · cases hf : isGzipFold (hget r.header hContentEncoding)
+        · have : (hget r.header hContentEncoding == tokGzip) = false := by
+            cases heq : (hget r.header hContentEncoding == tokGzip)
+            · rfl
+            · have := eq_of_beq heq; rw [this] at hf; revert hf; decide
+          simp [hg, hf, this, Legacy.applyAction, applyAction] at hne
+        · refine ⟨rfl, rfl, ?_⟩
+          intro heq
+          have hf' : isGzipFold tokGzip = true := by decide
+          simp [hg, heq, hf', Legacy.applyAction, applyAction] at hne
+    · right; left; exact ⟨rfl, rfl⟩
+
+/-! ## Part 2 — the readers -/
+
+/-- A reader together with its current state. -/
+structure Running where
+  R : Reader
+  s : R.σ
+
+/-- The reader object the caller finds in `Response.Body`, over the framing-level body `src`:
+`raw` = that body itself; `gunzip` = `transport.go gzipReader` on HTTP/1.1 and
+`compress.GzipReader` on HTTP/2 and HTTP/3; `decode a` = the lazy reader of `a`. -/
+def bodyReader (codecs : Alg → Codec) (site : Site) (src : Src) : BodyKind → Running
+  | .raw => ⟨rawReader, (src.data, src.fin)⟩
+  | .gunzip =>
+    match site with
+    | .h1 => ⟨h1GzipReader (codecs .gzip), H1GzState.init src⟩
+    | _ => ⟨lazyReader (codecs .gzip) (keeps .gzip), LazyState.init src⟩
+  | .decode a => ⟨lazyReader (codecs a) (keeps a), LazyState.init src⟩
+
+/-- What the body means, independently of how it is read and of the stack. -/
+def delivered (codecs : Alg → Codec) (src : Src) (k : BodyKind) : Bytes × Term :=
+  deliver (src.data, src.fin) (fun a => (codecs a).total src) k
+
+theorem bodyReader_rest (codecs : Alg → Codec) (site : Site) (src : Src) (k : BodyKind) :
+    (bodyReader codecs site src k).R.rest (bodyReader codecs site src k).s = delivered codecs src k := by
+  cases k with
+  | raw => rfl
+  | gunzip => cases site <;> rfl
+  | decode a => rfl
+
+/-- **read_size_independent** — for every codec satisfying the streaming law, every body,
+every stack and EVERY sequence of `Read` buffer sizes: once a `Read` returns an error
+(`io.EOF` included) the concatenation of everything returned is the whole meaning of the body
+and the error is its end — neither depends on the sizes. -/
+theorem read_size_independent (codecs : Alg → Codec) (site : Site) (src : Src) (k : BodyKind)
+    (ns : List Nat) (t : Term)
+    (h : (drain (bodyReader codecs site src k).R (bodyReader codecs site src k).s ns).2.2 = some t) :
+    ((drain (bodyReader codecs site src k).R (bodyReader codecs site src k).s ns).2.1, t)
+      = delivered codecs src k := by
+  have := drain_spec (bodyReader codecs site src k).R (bodyReader codecs site src k).s ns
+  rw [h] at this
+  rw [← bodyReader_rest codecs site src k, this.1]
+
+/-- two read schedules, two stacks: same bytes, same final error -/
+theorem read_size_and_version_independent (codecs : Alg → Codec) (s₁ s₂ : Site) (src : Src)
+    (k : BodyKind) (ns₁ ns₂ : List Nat) (t₁ t₂ : Term)
+    (h₁ : (drain (bodyReader codecs s₁ src k).R (bodyReader codecs s₁ src k).s ns₁).2.2 = some t₁)
+    (h₂ : (drain (bodyReader codecs s₂ src k).R (bodyReader codecs s₂ src k).s ns₂).2.2 = some t₂) :
+    (drain (bodyReader codecs s₁ src k).R (bodyReader codecs s₁ src k).s ns₁).2.1 =
+      (drain (bodyReader codecs s₂ src k).R (bodyReader codecs s₂ src k).s ns₂).2.1 ∧ t₁ = t₂ := by
+  have a := read_size_independent codecs s₁ src k ns₁ t₁ h₁
+  have b := read_size_independent codecs s₂ src k ns₂ t₂ h₂
+  have := a.trans b.symm
+  exact ⟨congrArg (fun x => x.1) this, congrArg (fun x => x.2) this⟩
+
+/-- before the end, what has been returned is a prefix of the meaning (no garbage, nothing
+skipped) -/
+theorem partial_reads_are_prefix (codecs : Alg → Codec) (site : Site) (src : Src) (k : BodyKind)
+    (ns : List Nat) :
+    (drain (bodyReader codecs site src k).R (bodyReader codecs site src k).s ns).2.1
+      <+: (delivered codecs src k).1 := by
+  have := drain_spec (bodyReader codecs site src k).R (bodyReader codecs site src k).s ns
+  rw [← bodyReader_rest codecs site src k]
+  cases h : (drain (bodyReader codecs site src k).R (bodyReader codecs site src k).s ns).2.2 with
+  | none => rw [h] at this; rw [this]; exact List.prefix_append _ _
+  | some t => rw [h] at this; rw [this.1]; exact List.prefix_refl _
+
+/-- reading with non-empty buffers always reaches the end (no livelock): more reads than
+bytes suffice -/
+theorem reads_finish (codecs : Alg → Codec) (site : Site) (src : Src) (k : BodyKind)
+    (ns : List Nat) (hpos : ∀ n ∈ ns, 0 < n) (hlen : (delivered codecs src k).1.length < ns.length) :
+    (drain (bodyReader codecs site src k).R (bodyReader codecs site src k).s ns).2.2 ≠ none := by
+  apply drain_finishes _ _ _ hpos
+  rw [bodyReader_rest]; exact hlen
+
+/-- **sticky_error** — after the first `Read` that returned an error, every later `Read` (with
+a non-empty buffer) returns no data and the same error. -/
+theorem sticky_error (codecs : Alg → Codec) (site : Site) (src : Src) (k : BodyKind)
+    (ns : List Nat) (t : Term)
+    (h : (drain (bodyReader codecs site src k).R (bodyReader codecs site src k).s ns).2.2 = some t)
+    (ms : List Nat) (hpos : ∀ m ∈ ms, 0 < m) :
+    ∀ m ∈ ms, ∀ pre, pre ++ [m] <+: ms →
+      ((bodyReader codecs site src k).R.read
+        (pre.foldl (fun s n => ((bodyReader codecs site src k).R.read s n).1)
+          (drain (bodyReader codecs site src k).R (bodyReader codecs site src k).s ns).1) m).2
+        = ([], some t) := by
+  have hd := drain_spec (bodyReader codecs site src k).R (bodyReader codecs site src k).s ns
+  rw [h] at hd
+  have hend := hd.2
+  generalize (drain (bodyReader codecs site src k).R (bodyReader codecs site src k).s ns).1 = s0 at hend
+  intro m _ pre hpre
+  have hall : ∀ x ∈ pre ++ [m], 0 < x := fun x hx => hpos x (hpre.subset hx)
+  clear hpre
+  induction pre generalizing s0 with
+  | nil => exact (read_after_end _ s0 t hend m (hall m (by simp))).1
+  | cons p pre ih =>
+    simp only [List.foldl_cons]
+    apply ih
+    · exact (read_after_end _ s0 t hend p (hall p (by simp))).2
+    · intro x hx; exact hall x (by simp only [List.cons_append, List.mem_cons]; exact Or.inr hx)
+
+/-- a constructor error (`gzip.NewReader`: bad magic, truncated member header, error of the
+underlying body) is returned by the first `Read` and by every later one, whatever the buffer
+sizes (zero included), and no byte is ever produced -/
+theorem constructor_error_sticky (C : Codec) (src : Src) (e : Term) (h : C.openR src = .error e)
+    (keep : Bool) (ns : List Nat) :
+    lazyRun C keep (LazyState.init src) (ns.map Op.read) = ns.map (fun _ => ([], some e)) ∧
+    h1gzRun C (H1GzState.init src) (ns.map Op.read) = ns.map (fun _ => ([], some e)) := by
+  cases ns with
+  | nil => simp [lazyRun, h1gzRun]
+  | cons n ns =>
+    have hl : ∀ (st : LazyState C), st.zerr = some e → ∀ ms : List Nat,
+        lazyRun C keep st (ms.map Op.read) = ms.map (fun _ => ([], some e)) := by
+      intro st hz ms
+      induction ms with
+      | nil => simp [lazyRun]
+      | cons m ms ih => simp [lazyRun, lazyRead, hz, ih]
+    have hh : ∀ (st : H1GzState C), st.inner = none → st.zerr = some e → ∀ ms : List Nat,
+        h1gzRun C st (ms.map Op.read) = ms.map (fun _ => ([], some e)) := by
+      intro st hi hz ms
+      induction ms with
+      | nil => simp [h1gzRun]
+      | cons m ms ih => simp [h1gzRun, h1gzRead, hi, hz, ih]
+    constructor
+    · simp only [List.map_cons, lazyRun, lazyRead, LazyState.init, h]
+      rw [hl _ rfl]
+    · simp only [List.map_cons, h1gzRun, h1gzRead, H1GzState.init, h, Bool.false_eq_true, if_false]
+      rw [hh _ rfl rfl]
+
+/-- `GzipReader.Close` then `Read`: `fs.ErrClosed`, always, no data -/
+theorem closed_sticky (C : Codec) (keep : Bool) (st : LazyState C) (ns : List Nat) :
+    lazyRun C keep st (Op.close :: ns.map Op.read) = ns.map (fun _ => ([], some errClosed)) := by
+  simp only [lazyRun]
+  have : ∀ (st : LazyState C), st.zerr = some errClosed →
+      lazyRun C keep st (ns.map Op.read) = ns.map (fun _ => ([], some errClosed)) := by
+    intro st hz
+    induction ns with
+    | nil => simp [lazyRun]
+    | cons m ms ih => simp [lazyRun, lazyRead, hz, ih]
+  exact this _ rfl
+
+/-- **kept_error_sticky** — a wrapper that records every error (`BrotliReader` after
+fixes/C14-4) is sticky BY ITSELF, for every buffer size (zero included): once a `Read` has
+returned an error, every later `Read` returns no data and that error without consulting the
+decoder again — no assumption on the decoder's own stickiness is used. -/
+theorem kept_error_sticky (C : Codec) (st : LazyState C) (n : Nat) (t : Term)
+    (h : (lazyRead C true st n).2.2 = some t) (ms : List Nat) :
+    lazyRun C true (lazyRead C true st n).1 (ms.map Op.read) = ms.map (fun _ => ([], some t)) := by
+  have hz : (lazyRead C true st n).1.zerr = some t := by
+    revert h
+    unfold lazyRead
+    split
+    · rename_i e hz; intro h; simp at h; subst h; exact hz
+    · split
+      · intro h; simpa using h
+      · split
+        · intro h; simp at h; subst h; rfl
+        · intro h; simpa using h
+  generalize (lazyRead C true st n).1 = st' at hz
+  induction ms with
+  | nil => simp [lazyRun]
+  | cons m ms ih => simp [lazyRun, lazyRead, hz, ih]
+
+/-- **delivered_original** — end to end: whenever the decision installs a decoder and the body
+is the encoding of a payload under a codec with the round-trip law, the caller reads exactly
+that payload followed by a clean EOF, for every read schedule and on every stack; whenever it
+does not, exactly the bytes received. -/
+theorem delivered_original (codecs : Alg → Codec) (enc : Alg → Bytes → Bytes)
+    (hrt : ∀ a p, (codecs a).total ⟨enc a p, .eof⟩ = (p, .eof))
+    (s : Site) (c : ReqCfg) (auto hasBody : Bool) (r : Resp) (k : BodyKind)
+    (hk : (process s c auto hasBody r).body = some k) (payload wire : Bytes)
+    (hw : wire = match k with
+      | .raw => payload | .gunzip => enc .gzip payload | .decode a => enc a payload)
+    (ns : List Nat) (t : Term)
+    (h : (drain (bodyReader codecs s ⟨wire, .eof⟩ k).R (bodyReader codecs s ⟨wire, .eof⟩ k).s ns).2.2 = some t) :
+    (drain (bodyReader codecs s ⟨wire, .eof⟩ k).R (bodyReader codecs s ⟨wire, .eof⟩ k).s ns).2.1 = payload
+      ∧ t = .eof := by
+  have := read_size_independent codecs s ⟨wire, .eof⟩ k ns t h
+  have hd : delivered codecs ⟨wire, .eof⟩ k = (payload, .eof) := by
+    subst hw
+    cases k <;> simp [delivered, deliver, hrt]
+  rw [hd] at this
+  exact ⟨congrArg Prod.fst this, congrArg Prod.snd this⟩
+
+/-- **corrupt_yields_error** — if the codec's meaning of the body ends in an error (corrupt or
+truncated stream, error of the underlying body) then no read schedule ends in a clean EOF:
+the caller always sees that error, after a prefix of the meaning. -/
+theorem corrupt_yields_error (codecs : Alg → Codec) (site : Site) (src : Src) (k : BodyKind)
+    (e : Nat) (he : (delivered codecs src k).2 = .err e) (ns : List Nat) (t : Term)
+    (h : (drain (bodyReader codecs site src k).R (bodyReader codecs site src k).s ns).2.2 = some t) :
+    t = .err e := by
+  have := read_size_independent codecs site src k ns t h
+  rw [← he, ← this]
+
+/-! ### non-vacuity: the toy codec inhabits the parameter -/
+
+def toyCodecs : Alg → Codec := fun _ => Toy.codec
+
+/-- the round-trip hypothesis of `delivered_original` is satisfiable -/
+theorem toy_roundtrip_law : ∀ (a : Alg) (p : Bytes),
+    (toyCodecs a).total ⟨Toy.encode p, .eof⟩ = (p, .eof) := fun _ p => Toy.roundtrip p
+
+-- payload [7,7,7,9] encoded as runs 3×7, 1×9, end: read with buffers 1,2,5,1 / 4,4 / 2,2,2 on
+-- two different stacks
+example :
+    (drain (bodyReader toyCodecs .h1 ⟨[3, 7, 1, 9, 0], .eof⟩ .gunzip).R
+      (bodyReader toyCodecs .h1 ⟨[3, 7, 1, 9, 0], .eof⟩ .gunzip).s [1, 2, 5, 1]).2
+      = ([7, 7, 7, 9], some .eof) := by decide
+example :
+    (drain (bodyReader toyCodecs .h3 ⟨[3, 7, 1, 9, 0], .eof⟩ (.decode .br)).R
+      (bodyReader toyCodecs .h3 ⟨[3, 7, 1, 9, 0], .eof⟩ (.decode .br)).s [4, 4]).2
+      = ([7, 7, 7, 9], some .eof) := by decide
+-- truncated after the first run: the data so far, then unexpected EOF, and it sticks
+example :
+    (drain (bodyReader toyCodecs .h2 ⟨[3, 7, 1], .eof⟩ .gunzip).R
+      (bodyReader toyCodecs .h2 ⟨[3, 7, 1], .eof⟩ .gunzip).s [2, 2, 2]).2
+      = ([7, 7, 7], some (.err 1)) := by decide
+example :
+    lazyRun Toy.codec false (LazyState.init ⟨[3, 7, 1], .eof⟩) [.read 2, .read 2, .read 2, .read 1, .close, .read 1]
+      = [([7, 7], none), ([7], some (.err 1)), ([], some (.err 1)), ([], some (.err 1)), ([], some (.err 3))] := by
+  decide
+
+/-! ## Part 3 — the extracted source shape means the model
+
+`Bridge/C14.lean` proves that the shape `tools/gofacts` extracts from transport.go,
+internal/http2/transport.go and internal/http3/http_stream.go equals `shape s` (or
+`Legacy.shape s` while the fixes are not applied). Here: the meaning of those shapes is the
+decision function the theorems above are about. -/
+
+theorem interp_core (sh : SiteShape) (i : RespIn)
+    (h1 : sh = shape .h1 ∨ sh = shape .h2) : interp sh i = some (viewAction (decideCore i)) := by
+  have e1 : strips [Effect.delContentEncoding, .delContentLength, .contentLengthMinus1, .uncompressedTrue, .set .body .gzipReader] = some true := by decide
+  have e1' : strips [Effect.delContentEncoding, .delContentLength, .contentLengthMinus1, .uncompressedTrue, .set .body .gzipReader] = some true := by decide
+  have e2 : strips [Effect.delContentEncoding, .delContentLength, .contentLengthMinus1, .uncompressedTrue, .set .body .reader] = some true := by decide
+  have e3 : strips [] = some false := by decide
+  rcases h1 with rfl | rfl <;>
+  · simp only [interp, shape, decideCore, isGzipFold]
+    simp only [e1, e1', e2, e3, List.foldl, runEffect, runEffects, Bool.true_and]
+    rcases Bool.eq_false_or_eq_true (i.addedGzip && Req.Ascii.equalFold i.ce tokGzip) with hg | hg
+    · simp [hg, viewAction]
+    · rcases Bool.eq_false_or_eq_true i.autoDecompress with ha | ha
+      · cases hs : select i.ce <;> simp [hg, ha, hs, viewAction]
+      · simp [hg, ha, viewAction]
+
+/-- **interp_shape_h1 / h2** — the extracted shape of `readLoop` / `handleResponse` means
+`decideCore` (the branch behind the stacks' HEAD / bodiless early exits). -/
+theorem interp_shape_h1 (i : RespIn) : interp (shape .h1) i = some (viewAction (decideCore i)) :=
+  interp_core _ i (Or.inl rfl)
+
+theorem interp_shape_h2 (i : RespIn) : interp (shape .h2) i = some (viewAction (decideCore i)) :=
+  interp_core _ i (Or.inr rfl)
+
+/-- **interp_shape_h3** — the extracted shape of `ReadResponse` (assignments through
+`s.responseBody`, `res.Body = s.responseBody` at the end) means `decideH3`. -/
+theorem interp_shape_h3 (i : RespIn) : interp (shape .h3) i = some (viewAction (decideH3 i)) := by
+  have e1 : strips [Effect.delContentEncoding, .delContentLength, .contentLengthMinus1, .uncompressedTrue, .set .responseBody .gzipReader] = some true := by decide
+  have e2 : strips [Effect.delContentEncoding, .delContentLength, .contentLengthMinus1, .uncompressedTrue, .set .responseBody .reader] = some true := by decide
+  have e3 : strips [] = some false := by decide
+  simp only [interp, shape, decideH3, isGzipFold]
+  simp only [e1, e2, e3, List.foldl, runEffect, runEffects, Bool.true_and]
+  rcases Bool.eq_false_or_eq_true (i.addedGzip && Req.Ascii.equalFold i.ce tokGzip) with hg | hg
+  · simp [hg, viewAction]
+  · rcases Bool.eq_false_or_eq_true (i.autoDecompress && !i.isHead) with ha | ha
+    · cases hs : select i.ce <;> simp [hg, ha, hs, viewAction]
+    · simp [hg, ha, viewAction]
+
+/-- the pre-fix shapes mean the legacy model (so the counter-examples `legacy_*` are about the
+code that was extracted before the fixes) -/
+theorem interp_legacy_shape_h1_h2 (i : RespIn) :
+    interp (Legacy.shape .h1) i = some (Legacy.viewAction (Legacy.decideCore i)) ∧
+    interp (Legacy.shape .h2) i = some (Legacy.viewAction (Legacy.decideCore i)) := by
+  have e1 : strips [Effect.delContentEncoding, .delContentLength, .contentLengthMinus1, .uncompressedTrue, .set .body .gzipReader] = some true := by decide
+  have e1' : strips [Effect.delContentEncoding, .delContentLength, .contentLengthMinus1, .uncompressedTrue, .set .body .gzipReader] = some true := by decide
+  have e2 : strips [Effect.delContentEncoding, .delContentLength, .contentLengthMinus1, .uncompressedTrue, .set .body .reader] = some true := by decide
+  have e3 : strips [] = some false := by decide
+  constructor <;>
+  · simp only [interp, Legacy.shape, shape, Legacy.decideCore, isGzipFold]
+    simp only [e1, e1', e2, e3, List.foldl, runEffect, runEffects, Bool.true_and]
+    rcases Bool.eq_false_or_eq_true (i.addedGzip && Req.Ascii.equalFold i.ce tokGzip) with hg | hg
+    · simp [hg, Legacy.viewAction]
+    · rcases Bool.eq_false_or_eq_true i.autoDecompress with ha | ha
+      · rcases Bool.eq_false_or_eq_true (i.ce != []) with he | he
+        · cases hs : select i.ce <;> simp [hg, ha, he, hs, Legacy.viewAction]
+        · simp [hg, ha, he, Legacy.viewAction]
+      · simp [hg, ha, Legacy.viewAction]
+
+theorem interp_legacy_shape_h3 (i : RespIn) :
+    interp (Legacy.shape .h3) i = some (Legacy.viewAction (Legacy.decideH3 i)) := by
+  have e1 : strips [Effect.delContentEncoding, .delContentLength, .contentLengthMinus1, .uncompressedTrue, .set .responseBody .gzipReader] = some true := by decide
+  have e2 : strips [Effect.delContentEncoding, .delContentLength, .contentLengthMinus1, .uncompressedTrue, .set .body .reader] = some true := by decide
+  have e3 : strips [Effect.set .responseBody .raw] = some false := by decide
+  simp only [interp, Legacy.shape, Legacy.decideH3]
+  simp only [e1, e2, e3, List.foldl, runEffect, runEffects, Bool.true_and]
+  rcases Bool.eq_false_or_eq_true (i.addedGzip && i.ce == tokGzip) with hg | hg
+  · simp [hg, Legacy.viewAction]
+  · rcases Bool.eq_false_or_eq_true i.autoDecompress with ha | ha
+    · rcases Bool.eq_false_or_eq_true (i.ce != []) with he | he
+      · simp [hg, ha, he, Legacy.viewAction]
+      · simp [hg, ha, he, Legacy.viewAction]
+    · simp [hg, ha, Legacy.viewAction]
+
+/-- the extracted request-side conjunct list means `addGzip` -/
+theorem interpAsk_shape (s : Site) (c : ReqCfg) : interpAsk (shape s).ask c = some (addGzip s c) := by
+  cases s <;> simp [interpAsk, shape, addGzip, addGzipH1, addGzipH2, addGzipH3, ReqCfg.isHead, Bool.and_assoc, bne]
+  cases c.disableCompression <;> cases List.isEmpty c.acceptEncoding <;> cases List.isEmpty c.range <;>
+    cases (c.method == tokHEAD) <;> rfl
+
+/-- the fixes do not touch the request side -/
+theorem legacy_shape_ask (s : Site) : (Legacy.shape s).ask = (shape s).ask := by
+  cases s <;> rfl
+
+end Req.Props.C14
